@@ -138,11 +138,21 @@ NoFilters(o) == ~o.include.given /\ ~o.exclude.given
 \* be the name of a test that ran), and a later roll-up equals an earlier one (AggIdempotent).
 \* what the roll-up columns must be for a save without filters: one per name, each the roll-up of all test results
 RollupWanted(tb, cfg, names, aggd) == IF aggd THEN RollupOf(tb, cfg, names) ELSE <<>>
-RollupsOK(rolls, tb, cfg, names, aggs) ==
-    LET want == RollupOf(tb, cfg, names) IN
-    IF aggs = {} THEN rolls = <<>>
-    ELSE want # <<>> => /\ { rolls[j].name : j \in 1..Len(rolls) } = aggs
-                        /\ Len(rolls) = Cardinality(aggs)
+\* a roll-up is a result whose test name is the roll-up's name (and that has no stream id): the filters keep / drop it
+\* by that name (items of kind "rollupname"); its values are those of ALL test results, whatever is filtered
+\* (a roll-up that was given the name of a test is also named by a filter item for that test)
+RollListed(a, lst, names) == \E j \in 1..Len(lst) :
+                                 \/ lst[j].kind = "rollupname" /\ lst[j].v = a
+                                 \/ lst[j].kind = "test" /\ lst[j].v \in DOMAIN names /\ names[lst[j].v] = a
+RollPasses(a, o, names) == /\ (o.include.given => RollListed(a, o.include.items, names))
+                           /\ (o.exclude.given => ~RollListed(a, o.exclude.items, names))
+RollupsOK(rolls, tb, cfg, names, aggs, o) ==
+    LET want == RollupOf(tb, cfg, names)
+        keep == { a \in aggs : RollPasses(a, o, names) }
+    IN
+    IF keep = {} THEN rolls = <<>>
+    ELSE want # <<>> => /\ { rolls[j].name : j \in 1..Len(rolls) } = keep
+                        /\ Len(rolls) = Cardinality(keep)
                         /\ \A j \in 1..Len(rolls) : rolls[j].vals = want
 RollupOK(roll, tb, cfg, names, aggd) ==
     LET want == RollupWanted(tb, cfg, names, aggd) IN
